@@ -271,7 +271,15 @@ def install_late(spec: Spec):
         bus = ex.lookup('bus')
         ex.oblige('callsite:get_nowait/requires', 'no_earlier_event_of_this_bus_in_hand_elsewhere', quiescent(bus.term), ['C02'])
 
+    def aw_wait_pre(ex, n):
+        # C04 (safety core of "never deadlocks"): a handler that holds the global lock must not block on the completion signal of an
+        # event that is not complete - nothing else could process that event or its descendants while the lock is held
+        ex.oblige('callsite:event_completed_signal.wait/requires', 'no_blocking_wait_while_holding_the_lock_inside_a_handler',
+                  ex.spec_bool("signalled(self) or not (ctx('inside_handler') and ctx('holds_global_lock'))", dict(ex.st.env)), ['C04'])
+
     def aw_get_post_model(ex, n, awaited, recv=None):
+        # C05: once the awaited event is complete nothing more is taken from any queue
+        ex.oblige('callsite:get_nowait/requires', 'stops_draining_once_the_awaited_event_is_complete', ex.spec_bool('not signalled(self)', dict(ex.st.env)), ['C05'])
         aw_get_pre(ex, n)
         q = ex.eval(n.func.value)
         C = ex.spec.functions['CleanShutdownQueue.get_nowait']
@@ -310,6 +318,7 @@ def install_late(spec: Spec):
     IN_HANDLER_BRANCH = "old(not signalled(self)) and ctx('inside_handler') and ctx('holds_global_lock')"
     spec.fn('BaseEvent.__await__.wait', file=M, qual='BaseEvent.__await__.<locals>.wait_for_handlers_to_complete_then_return_event', is_async=True,
             interference='await', params={}, free={'self': 'BaseEvent'}, returns='BaseEvent', cancel_must_propagate=True,
+            ignore_callee_raises={'EventBus.process_event': ['unexpected']},
             requires=[('in_loop', 'loop_running()', []),
                       ('all_buses_serial', "forall(lambda b: not b.parallel_handlers, 'EventBus')", []),
                       ('nothing_in_hand', 'inhand == 0', [])],
@@ -318,16 +327,18 @@ def install_late(spec: Spec):
             ghost_modifies=['inhand', 'inhand_q', 'dequeued', 'processed', 'task_done_calls', 'invoked', 'eh_calls', 'wal_calls', 'wal_lines', 'wal_opens', 'cancel_walk_calls'],
             callsites={'bus.event_queue.get_nowait': {'model': aw_get_post_model, 'writes': ['q_items'], 'ghost_writes': ['inhand', 'inhand_q', 'dequeued']},
                        'bus.process_event': {'pre': aw_process_pre},
+                       'self.event_completed_signal.wait': {'pre': aw_wait_pre},
                        'bus.event_queue.task_done': {'model': aw_task_done_model, 'writes': ['q_unfinished'], 'ghost_writes': ['task_done_calls', 'inhand']}},
             loops={0: {'inv': [('nothing_in_hand_between_iterations', 'inhand == 0', ['C15', 'C10']), ('queue_accounting', Q_ACC, ['C15']), ('iterations_bounded', 'iterations >= 0', [])]},
-                   1: {'inv': [('nothing_in_hand_between_buses', 'inhand == 0', ['C15', 'C10']), ('queue_accounting', Q_ACC, ['C15'])]}},
+                   1: {'inv': [('nothing_in_hand_between_buses', 'inhand == 0', ['C15', 'C10']), ('queue_accounting', Q_ACC, ['C15']),
+                               ('awaited_event_not_complete_yet', 'not signalled(self)', ['C05'])]}},
             exits_ensure=[('every_taken_event_is_task_done', 'inhand == 0', ['C10', 'C15'])],
             ensures=[('returns_the_same_event', 'result is self', ['C03', 'C04']),
                      ('complete_at_return_outside_handlers', 'implies(not (' + IN_HANDLER_BRANCH + '), signalled(self))', ['C03']),
                      ('complete_at_return_inside_handlers', 'implies(' + IN_HANDLER_BRANCH + ', signalled(self))', ['C04'])],
             raises_tags=['C03', 'C04', 'C11'],
             raises=[RaisesClause('CancelledError', label='cancelled', tags=['C04', 'C10']),
-                    RaisesClause('Exception', label='unexpected', origin='call:EventBus.process_event/unexpected')])
+                    ])
 
     # ------------------------------------------------------------------ result accessors (C11 C12)
     spec.fn('EventResult.__await__.wait', file=M, qual='EventResult.__await__.<locals>.wait_for_handler_to_complete_and_return_result', is_async=True,
